@@ -360,3 +360,158 @@ def overlapping_layout(rnd, W, nfields=5, tag=""):
     if not fields:
         fields.append(Field("f0", T_bool(), [(0, 1)], None, "rw"))
     return Layout(W, fields, aux=aux, tag=tag)
+
+
+# ---- universal random structs: every declaration dimension at once ------------------------------
+CONST_NAMES = ["DEF_CONST", "MAX", "MASK", "RESET", "ZERO", "BITS", "DEFAULT", "MIN", "VALUE"]
+W_CHOICES = [1, 1, 2, 3, 4, 5, 7, 8, 8, 9, 12, 15, 16, 16, 17, 24, 31, 32, 32, 33, 48, 63, 64, 64, 65, 100, 127, 128]
+
+
+def _u_type(rnd, w, aux, allow_custom=True):
+    ty = _mk_field_type(rnd, w, aux, allow_custom)
+    if rnd.random() < 0.15 and ty.kind in ("uint", "optenum"):
+        ty.path = rnd.choice(["qualified", "abs"] + (["std"] if ty.kind == "optenum" else []))
+    return ty
+
+
+def _u_list(rnd, lo_space, hi_space, w):
+    """a range list of total width w inside [lo_space, hi_space): several flavours"""
+    span = hi_space - lo_space
+    mode = rnd.choice(["chunks", "random", "adjacent_far", "desc_adjacent", "bits", "random"])
+    if mode == "chunks" and w % 4 == 0 and w >= 8 and span >= w:
+        c = w // 4
+        off = lo_space + rnd.randint(0, span - w)
+        order = list(range(4))
+        rnd.shuffle(order)
+        return [(off + k * c, c) for k in order]
+    if mode == "bits" and w <= 6 and span >= 2 * w:
+        pos = sorted(rnd.sample(range(lo_space, hi_space), w))
+        rs = [(p, 1) for p in pos]
+        rnd.shuffle(rs)
+        return rs
+    if mode == "adjacent_far" and w >= 3 and span >= w + 2:
+        a = rnd.randint(1, w - 2)
+        b = rnd.randint(1, w - a - 1)
+        c = w - a - b
+        base = lo_space + rnd.randint(0, max(0, span - w - 2) // 2)
+        far = hi_space - c
+        if base + a + b <= far:
+            rs = [(base, a), (base + a, b), (far, c)]
+            return rs if rnd.random() < 0.6 else [rs[2], rs[0], rs[1]]
+    if mode == "desc_adjacent" and w >= 2 and span >= w:
+        k = rnd.randint(2, min(4, w))
+        cuts = sorted(rnd.sample(range(1, w), k - 1))
+        sizes = [b - a for a, b in zip([0] + cuts, cuts + [w])]
+        off = lo_space + rnd.randint(0, span - w)
+        rs, p = [], off
+        for n in sizes:
+            rs.append((p, n))
+            p += n
+        rs.reverse()
+        return rs
+    rs = random_list(rnd, span, w, parts=rnd.randint(2, min(5, w)))
+    return [(lo + lo_space, n) for (lo, n) in rs]
+
+
+def universal_layout(rnd, W=None, tag="universal random struct"):
+    W = W or rnd.choice([8, 16, 32, 64, 128, 128, 64, 32] + [rnd.choice(ALL_ARB)] * 4)
+    if W < 2:
+        W = 8
+    aux, fields = [], []
+    disjoint = rnd.random() < 0.5
+    nf = rnd.randint(1, 6)
+    used = set()
+    for idx in range(nf):
+        for attempt in range(12):
+            w = min(rnd.choice(W_CHOICES), W)
+            shape = rnd.choice(["scalar", "scalar", "scalar", "list", "list", "array", "array", "array_list"])
+            if w < 2 and shape in ("list", "array_list"):
+                shape = "scalar"
+            ty = _u_type(rnd, w, [], True)  # probe kind only
+            K = None
+            if shape in ("array", "array_list"):
+                K = rnd.randint(2, 8)
+                if shape == "array":
+                    gap = rnd.choice([0, 0, 0, 1, 2, w])
+                    s = w + gap
+                    span = (K - 1) * s + w
+                    if span > W:
+                        continue
+                    lo = rnd.choice([0, W - span, rnd.randint(0, W - span)])
+                    ranges, arr = [(lo, w)], (K, s, (s != w) or rnd.random() < 0.3)
+                else:
+                    espan = rnd.randint(w, max(w, min(W // K, 2 * w + 3)))
+                    if espan * K > W or espan < w:
+                        continue
+                    off = rnd.choice([0, W - espan * K, rnd.randint(0, W - espan * K)])
+                    rs = _u_list(rnd, 0, espan, w) if espan > w else None
+                    if not rs:
+                        continue
+                    ranges, arr = [(lo + off, n) for (lo, n) in rs], (K, espan, True)
+            elif shape == "list":
+                if W - w < 1 and rnd.random() < 0.7:
+                    continue
+                rs = _u_list(rnd, 0, W, w)
+                ranges, arr = rs, None
+            else:
+                lo = rnd.choice([0, W - w, rnd.randint(0, W - w), max(0, min(W - w, rnd.choice([8, 16, 32, 64]) - w // 2))])
+                ranges, arr = [(lo, w)], None
+            f = Field(f"f{idx}", T_bool(), ranges, arr, "rw")
+            pos = f.all_positions()
+            if len(set(pos)) != len(pos) or max(pos) >= W or min(pos) < 0:
+                continue
+            if disjoint and (set(pos) & used):
+                continue
+            local_aux = []
+            f.ty = _u_type(rnd, w, local_aux, True)
+            if f.ty.kind == "custom" and rnd.random() < 0.6:
+                local_aux = []
+                f.ty = T_int(w) if (is_native(w) and rnd.random() < 0.6) else (T_uint(w) if w > 1 else T_bool())
+            # aux names must be unique within the struct
+            for a in local_aux:
+                if isinstance(a, EnumDef):
+                    newn = f"E{idx}x{len(aux)}"
+                    f.ty.enum.name = newn
+                    a.name = newn
+                else:
+                    old = f.ty.inner_name
+                    newn = f"Cust{idx}x{len(aux)}"
+                    a = a.replace(old, newn)
+                    f.ty.inner_name = newn
+                aux.append(a)
+            if f.ty.kind == "bool" and (len(ranges) != 1 or w != 1):
+                f.ty = T_uint(1) if w == 1 else T_uint(w)
+            if f.ty.kind == "bool" and rnd.random() < 0.2:
+                f.form = "bits1"
+            f.access = rnd.choice(["rw", "rw", "rw", "rw", "r", "w", "w"])
+            if arr and rnd.random() < 0.3:
+                f.arg_order = rnd.choice(["sra", "asr", "rsa", "ars", "sar"])
+            elif rnd.random() < 0.1:
+                f.arg_order = "ars"
+            used |= set(pos)
+            fields.append(f)
+            break
+    if not fields:
+        fields.append(Field("f0", T_bool(), [(0, 1)], None, "rw"))
+    dflt = None
+    r = rnd.random()
+    if r < 0.35:
+        dflt = ("lit", rnd.getrandbits(W) | 1, rnd.choice(["hex", "hex", "dec"]))
+    elif r < 0.5:
+        dflt = ("const", rnd.getrandbits(W) | (1 << (W - 1)))
+    L = Layout(W, fields, default=dflt, aux=aux, tag=tag + f" on u{W}", legacy=(rnd.random() < 0.12))
+    if dflt and dflt[0] == "const":
+        L.const_name = rnd.choice(CONST_NAMES)
+    if not L.rule_valid():
+        return universal_layout(rnd, W, tag)
+    return L
+
+
+def universal_layouts(seed, n, salt=0):
+    rnd = random.Random(seed * 1000003 + salt * 7919 + 17)
+    out = []
+    for k in range(n):
+        L = universal_layout(rnd)
+        L.origin = "universal"
+        out.append(L)
+    return out
